@@ -7,8 +7,6 @@ From Coq Require Import ZifyBool ZifyN ZifyNat.
 
 Section HDNP.
 Variable point : Type.
-Variable point_of_scalar : Z -> point.
-Variable ser_point : point -> list N.
 Variable parse_point : list N -> res point.
 Variable dsha : list N -> list N.
 
